@@ -51,6 +51,7 @@ struct tab {
     RegisterAtom *store[RT_MAXA]; /* exact heap block per area */
     int cb_oob;            /* a callback was asked for words outside its area */
     long cb_reads, cb_writes;
+    long cb_fail_read_at, cb_fail_write_at; /* environment deviation: the k-th read/write callback (counted from the last arming) answers IO_ERROR; -1 never */
 };
 
 static struct tab *g_tab; /* the table the callbacks belong to */
@@ -205,6 +206,12 @@ rt_cb_read(const RegisterArea *a, RegisterAtom *dest, RegisterOffset off, Regist
 {
     RegisterAccess rv = REG_ACCESS_RESULT_INIT;
     const int i = (int)(a - g_tab->areas);
+    if (g_tab->cb_fail_read_at >= 0 && g_tab->cb_reads == g_tab->cb_fail_read_at) {
+        g_tab->cb_reads++;
+        rv.code = REG_ACCESS_IO_ERROR;
+        rv.address = a->base + off;
+        return rv;
+    }
     g_tab->cb_reads++;
     if (i < 0 || i >= g_tab->s.na || (uint64_t)off + n > g_tab->s.a[i].size) {
         g_tab->cb_oob++;
@@ -219,6 +226,12 @@ rt_cb_write(RegisterArea *a, const RegisterAtom *src, RegisterOffset off, Regist
 {
     RegisterAccess rv = REG_ACCESS_RESULT_INIT;
     const int i = (int)(a - g_tab->areas);
+    if (g_tab->cb_fail_write_at >= 0 && g_tab->cb_writes == g_tab->cb_fail_write_at) {
+        g_tab->cb_writes++;
+        rv.code = REG_ACCESS_IO_ERROR;
+        rv.address = a->base + off;
+        return rv;
+    }
     g_tab->cb_writes++;
     if (i < 0 || i >= g_tab->s.na || (uint64_t)off + n > g_tab->s.a[i].size) {
         g_tab->cb_oob++;
@@ -249,6 +262,7 @@ tab_build(struct tab *tb, const struct tspec *s)
 {
     memset(tb, 0, sizeof *tb);
     tb->s = *s;
+    tb->cb_fail_read_at = tb->cb_fail_write_at = -1;
     tb->areas = mc_exact((size_t)(s->na + 1) * sizeof(RegisterArea));
     tb->entries = mc_exact((size_t)(s->nr + 1) * sizeof(RegisterEntry));
     memset(tb->areas, 0, (size_t)(s->na + 1) * sizeof(RegisterArea));
